@@ -12,23 +12,25 @@ func FromStr32(s string, frombit, tobit int32) (int32, uint64) {
 	size := tobit - frombit
 	spanSize := tobit - (frombit & ^7)
 
-	blen := int32(len(s)<<3) - frombit
+	// 8*len(s) and tobit+7 do not fit an int32 for strings of 256 MiB and
+	// bit positions near MaxInt32: these are computed in int64.
+	blen := int64(len(s))<<3 - int64(frombit)
 
-	if blen > size {
-		blen = size
+	if blen > int64(size) {
+		blen = int64(size)
 	}
 
 	if blen <= 0 {
 		return 0, 0
 	}
 
-	l := int32(len(s))
-	toByte := (tobit + 7) >> 3
+	l := int64(len(s))
+	toByte := (int64(tobit) + 7) >> 3
 	if l > toByte {
 		l = toByte
 	}
 
-	i := frombit >> 3
+	i := int64(frombit >> 3)
 	b := uint64(0)
 
 	if i < l {
@@ -51,5 +53,5 @@ func FromStr32(s string, frombit, tobit int32) (int32, uint64) {
 		}
 	}
 
-	return blen, (b >> uint(40-spanSize)) & Mask[size]
+	return int32(blen), (b >> uint(40-spanSize)) & Mask[size]
 }
